@@ -381,7 +381,10 @@ impl<'a> Socket<'a> {
                     requested_ip: dhcp_repr.your_ip, // use the offered ip
                 });
             }
-            (ClientState::Requesting(state), DhcpMessageType::Ack) => {
+            // A DHCPACK only answers a DHCPREQUEST: until the first request has actually been
+            // handed to the device (`retry == 0`) we are still "selecting" in RFC 2131 terms and
+            // must discard it - it can only be a stray reply carrying the DISCOVER's xid.
+            (ClientState::Requesting(state), DhcpMessageType::Ack) if state.retry > 0 => {
                 if let Some((config, renew_at, rebind_at, expires_at)) =
                     Self::parse_ack(cx.now(), &dhcp_repr, self.max_lease_duration, state.server)
                 {
